@@ -10,6 +10,20 @@ def main():
     tier = os.environ.get("VERIF_TIER") or a.tier
     seed = int(os.environ.get("VERIF_SEED", "1"))
     ctx = lib.Ctx(a.pid, tier, seed)
+    # watchdog: a check must never hang (a changed implementation may loop forever outside the guarded calls): past the deadline
+    # the stacks are dumped, the check is reported as no longer checking, evidence is written and the process exits 1
+    deadline = float(os.environ.get("VERIF_DEADLINE", "2700" if tier == "quick" else "21600"))
+    def watchdog():
+        import faulthandler, io, threading, time as _t
+        _t.sleep(deadline)
+        frames = sys._current_frames(); main_id = threading.main_thread().ident
+        stack = "".join(traceback.format_stack(frames[main_id])[-12:]) if main_id in frames else "?"
+        ctx.broken("harness-deadline", "the check did not finish within %.0f s (an implementation call outside the guarded ones does not terminate, or the machine is overloaded); main thread was at:\n%s" % (deadline, stack[-2500:]))
+        try: rc = ctx.finish()
+        except Exception: rc = 1
+        sys.stdout.flush(); os._exit(rc or 1)
+    import threading
+    threading.Thread(target=watchdog, daemon=True).start()
     mod = importlib.import_module("props." + a.pid.lower())
     try:
         if a.replay:
